@@ -120,7 +120,8 @@ func expandValue(key string, values, resolved map[string][]token, graph map[stri
 func expandExpressions(values map[string][]token, graph map[string][]string) (map[string][]token, error) {
 	resolved := make(map[string][]token)
 
-	for key := range values {
+	// in sorted order, so that the same input always reports the same error
+	for _, key := range sortedKeys(values) {
 		_, ok := resolved[key]
 		if ok {
 			continue
